@@ -16,6 +16,7 @@ import re
 import shutil
 import subprocess
 import sys
+import time
 import typing as T
 
 from vf import common, runner, optprobe
@@ -411,18 +412,24 @@ def select_points(ops: T.List[dict], tier: str) -> T.List[T.Tuple[int, bool]]:
     return pts
 
 
-def worker(job: T.Tuple[str, int, T.List[T.Tuple[int, bool]], str, str]) -> dict:
-    case_name, widx, pts, root, tier = job
+def worker(job: T.Tuple[T.Any, ...]) -> dict:
+    case_name, widx, pts, root, tier = job[:5]
+    deadline = job[5] if len(job) > 5 else None
     case = next(c for c in cases(tier) if c.name == case_name)
     ar = Arena(os.path.join(root, f'{case_name}-{widx}'), case)
     res: T.Dict[str, T.Any] = {'case': case_name, 'done': 0, 'not_reached': 0, 'timeouts': 0, 'problems': [], 'survived': 0,
-                               'recovered_from_scratch': 0}
+                               'recovered_from_scratch': 0, 'visited': [], 'budget_skipped': 0}
     if not ar.ok:
         res['arena_error'] = ar.err
         return res
     ops, _ = count_ops(ar)
     byn = {o['n']: o for o in ops}
-    for k, torn in pts:
+    for i, (k, torn) in enumerate(pts):
+        if deadline is not None and time.time() > deadline:
+            # wall-clock budget used up (loaded machine): the rest of this chunk is reported as not explored, never as held
+            res['budget_skipped'] = len(pts) - i
+            break
+        res['visited'].append((k, torn))
         ar.restore()
         r = ar.run_cmd(k, torn)
         killed = [x for x in r.records if 'killed_at' in x]
@@ -542,10 +549,14 @@ def main() -> int:
         chk.count(f'ops:{c.name}', len(ops))
         chk.count(f'killpoints:{c.name}', len(pts))
         nchunks = max(1, min(len(pts), (chk.jobs * 2) // max(1, len(cs)) + 1))
-        for i, ch in enumerate(common.chunks(pts, nchunks)):
-            jobs.append((c.name, i, list(ch), root, tier))
+        # strided chunks: when the time budget cuts a chunk short, what is lost is a uniform sample of the command's run
+        for i in range(nchunks):
+            jobs.append((c.name, i, pts[i::nchunks], root, tier))
         shutil.rmtree(ar.root, ignore_errors=True)
-    results = common.pmap(worker, jobs, chk.jobs, timeout=3000)
+    budget = float(os.environ.get('VERIF_C09_BUDGET', '150' if tier == 'quick' else '2700'))
+    deadline = time.time() + budget
+    chk.rng.shuffle(jobs)       # no case is systematically last when the budget runs out
+    results = common.pmap(worker, [j + (deadline,) for j in jobs], chk.jobs, timeout=budget + 1500)
     opkinds: T.Set[T.Tuple[str, str]] = set()
     for name, ops in oplists.items():
         for o in ops:
@@ -558,12 +569,12 @@ def main() -> int:
         chk.count('kills_survived', res['survived'])
         chk.count('kill_not_reached', res['not_reached'])
         chk.count('watchdog_timeouts', res['timeouts'])
+        chk.count('killpoints_not_explored_time_budget', res.get('budget_skipped', 0))
+        for k, torn in res.get('visited', []):
+            chk.case(f"{res['case']}:{k}:{torn}")
         chk.count('note:fresh_setup_plain_rerun_insufficient_but_reconfigure_recovers', res.get('plain_rerun_insufficient', 0))
         for p in res['problems']:
             chk.violation(p['mechanism'], {'case': p['case'], 'k': p['k'], 'torn': p['torn'], 'op': p['op'], 'symptom': p['symptom']})
-    for c in cs:
-        for (k, torn) in select_points(oplists.get(c.name, []), tier):
-            chk.case(f'{c.name}:{k}:{torn}')
     for c in cs[:3]:
         ops = oplists.get(c.name, [])
         chk.sample({'case': c.name, 'command': c.command, 'history': c.history,
